@@ -533,4 +533,40 @@ func (hc *handlerCtx) checkHandler(rep *Report, key string, vals [][]byte, build
 	if !bytes.Equal(msg.StorageRoot, sroot) || !bytes.Equal(msg.LastBlockHash, bh) {
 		rep.add(Mismatch{Kind: "pure", Fn: "MsgFinalizeTokenWithdrawal", Detail: M{"layout": key, "what": "storage root / block hash bytes of the message were modified"}})
 	}
+	// 3. the root-from-proof the handler effectively computes is the documented fold of EVERY element: proof lists whose
+	// documented fold differs from the storage root (one element more, one less, one bit flipped, two elements swapped)
+	// must be refused by the handler for the same output
+	junk := make([]byte, 32)
+	for i := range junk {
+		junk[i] = byte(0xa0 + i + int(seq))
+	}
+	variants := map[string][][]byte{"extended by one element": append(append([][]byte{}, vals...), junk),
+		"extended by a copy of the storage root": append(append([][]byte{}, vals...), clone(sroot)),
+		"preceded by one element":                append([][]byte{junk}, vals...)}
+	if len(vals) > 0 {
+		variants["shortened by its last element"] = append([][]byte{}, vals[:len(vals)-1]...)
+		fl := append([][]byte{}, vals...)
+		fl[len(fl)-1] = clone(fl[len(fl)-1])
+		fl[len(fl)-1][31] ^= 1
+		variants["last element with one bit flipped"] = fl
+	}
+	if len(vals) > 1 {
+		sw := append([][]byte{}, vals...)
+		sw[0], sw[len(sw)-1] = sw[len(sw)-1], sw[0]
+		variants["first and last element swapped"] = sw
+	}
+	for what, pv := range variants {
+		if bytes.Equal(fmtx.RootFromProof(leaf, pv), sroot) {
+			continue // (a swap of equal elements, a collision) - the documented fold still yields the storage root
+		}
+		m2 := &ophosttypes.MsgFinalizeTokenWithdrawal{Sender: c.Addr("x"), BridgeId: 1, OutputIndex: no, WithdrawalProofs: pv, From: from, To: to, Sequence: seq,
+			Amount: sdk.NewCoin(denom, math.NewInt(1)), Version: []byte{0}, StorageRoot: clone(sroot), LastBlockHash: clone(bh)}
+		c2, _ := ch.Ctx.CacheContext()
+		_, err2 := hc.ms.FinalizeTokenWithdrawal(c2, m2)
+		rep.Evaluations++
+		rep.ByFn["handler-root"]++
+		if err2 == nil {
+			rep.add(Mismatch{Kind: "handler-root", Fn: "MsgFinalizeTokenWithdrawal", Detail: M{"layout": key, "what": "the handler accepts a proof list (" + what + ") whose documented fold differs from the storage root"}})
+		}
+	}
 }
